@@ -161,13 +161,17 @@ def main(tier):
                 tr_id = trs[0]["id"]
             ob(ok5, "K5:tr:%s" % ent, {"rule": "K5 tr = H(pkEncode(rho, t1), 64) over the whole encoding", "entry": j["root"], "set": s, "pk_len": P["pk_len"],
                                         "sites": [x["rendered"][:120] for x in trs], "reads": rd5})
-            # K6
-            tg = tags_of(j["result"])
-            bytes_fields = [(p, n, t) for p, n, t in tg if n in (32, 64)]
-            want = ["xof%s@0+32" % h_id, "xof%s@0+64" % tr_id, "xof%s@0+32" % h_id, "xof%s@96+32" % h_id, "xof%s@0+64" % tr_id] if ok5 else None
-            ob(want is not None and [t for _, _, t in bytes_fields] == want, "K6:byte-field-provenance:%s" % ent,
-               {"rule": "K6 pk = (rho, tr, ..), sk = (rho, K, tr, ..) hold unmodified copies of H(xi|k|l)[0..32], [96..128] and of the 64 tr bytes", "entry": j["root"], "set": s,
-                "fields": bytes_fields, "expected_tags": want})
+            # K6 (by field name / multiset of tags: independent of the declaration order of struct fields)
+            ns = st.named_structs(j)
+            pkb, skb = st.byte_fields(ns.get("types::PublicKey")), st.byte_fields(ns.get("types::PrivateKey"))
+            bytes_fields = {"pk": pkb, "sk": skb}
+            ok6 = False
+            if ok5:
+                t_rho, t_k, t_tr = "xof%s@0+32" % h_id, "xof%s@96+32" % h_id, "xof%s@0+64" % tr_id
+                ok6 = sorted(pkb.values()) == sorted([(32, t_rho), (64, t_tr)]) and sorted(skb.values()) == sorted([(32, t_rho), (32, t_k), (64, t_tr)])
+            ob(ok6, "K6:byte-field-provenance:%s" % ent,
+               {"rule": "K6 the public key holds unmodified copies of H(xi|k|l)[0..32] and of the 64 tr bytes; the private key of H(..)[0..32], H(..)[96..128] and the same tr", "entry": j["root"], "set": s,
+                "fields": bytes_fields})
             # K8
             p2 = st.ret_probes(j, "high_low::power2round")
             p2bad = [x for x in r["sites"] if x["inst"].startswith("high_low::power2round") and x["violated"] and "power2round input" in str(x.get("msg"))]
